@@ -20,6 +20,7 @@ class StatementSplitter:
         self._in_case = 0
         self._is_create = False
         self._begin_depth = 0
+        self._in_loop_header = False
 
         self.consume_ws = False
         self.tokens = []
@@ -81,9 +82,23 @@ class StatementSplitter:
                 and self._is_create and self._begin_depth > 0):
             if unified == 'CASE':
                 self._in_case += 1
+            elif unified in ('FOR', 'WHILE'):
+                # a following LOOP belongs to this FOR/WHILE
+                self._in_loop_header = True
             return 1
 
-        if unified in ('END IF', 'END FOR', 'END WHILE'):
+        if unified == 'DO':
+            self._in_loop_header = False
+
+        if (unified == 'LOOP'
+                and self._is_create and self._begin_depth > 0):
+            if self._in_loop_header:
+                # FOR ... LOOP / WHILE ... LOOP: already counted
+                self._in_loop_header = False
+                return 0
+            return 1
+
+        if unified in ('END IF', 'END FOR', 'END WHILE', 'END LOOP'):
             return -1
 
         # Default
